@@ -8,19 +8,29 @@ def dataSt (P : Params α) (s : InitSt α) (key : Key) (stack : List Key) : Init
   { stack := stack, seen := key :: s.seen, readySet := s.readySet, dependencies := touch s.dependencies key, dependents := touch s.dependents key, waiting := s.waiting, waitingData := touch s.waitingData key, cache := s.cache.set key (P.dataVal key) }
 
 theorem initVisit_data (g : Graph) (P : Params α) (s : InitSt α) (key : Key) (stack : List Key)
-    (hg : g.get? key = some .data) :
+    (hg : g.get? key = some .data) (hnc : s.cache.has key = false) :
     initVisit g P key { s with stack := stack } =
       dataNodeLoop key (((touch s.dependents key).get? key).getD []) (dataSt P s key stack) := by
   unfold initVisit
-  simp only [hg]
+  simp only [hg, hnc, Bool.false_eq_true, if_false]
   rfl
+
+/-- with the invariant (empty start cache) a key that has not been visited is not in the cache: the
+`if key in cache: continue` branch is never taken -/
+theorem IInv.not_cached_of_not_seen {g : Graph} {results : List Key} {P : Params α} {s : InitSt α}
+    (h : IInv g results P s) {key : Key} (hns : key ∉ s.seen) : s.cache.has key = false := by
+  cases hc : s.cache.has key with
+  | false => rfl
+  | true =>
+    obtain ⟨v, hv⟩ := (Map.has_iff s.cache key).mp hc
+    exact absurd ((h.cacheVal key v).mp hv).1 hns
 
 theorem IInv.visit_data {g : Graph} {results : List Key} {P : Params α} {s : InitSt α}
     (h : IInv g results P s) {key : Key} {stack : List Key} (hst : s.stack = key :: stack)
     (hns : key ∉ s.seen) (hg : g.get? key = some .data) :
     ∃ s', initVisit g P key { s with stack := stack } = .ok s' ∧ IInv g results P s' ∧
       measure g s' < measure g s := by
-  rw [initVisit_data g P s key stack hg]
+  rw [initVisit_data g P s key stack hg (h.not_cached_of_not_seen hns)]
   have hkd : isData g key := hg
   have hknt : ¬ isTask g key := fun ht => not_data_of_task ht hkd
   have hnd : nodeDeps g key = [] := nodeDeps_data hg
